@@ -8,6 +8,7 @@ faults are judged end to end by the explorer (fault at every call position).
 import S3V.Lemmas.Xfer3
 import S3V.Props.C02
 import S3V.Props.C17
+import S3V.Props.Serial
 
 namespace S3V.C03
 open S3V.Xfer
@@ -63,5 +64,30 @@ theorem nonretryable_not_retried (io start len n : Nat) (a : S3V.Download.Attemp
     (S3V.Download.getObject io start len (n + 1) (a :: rest)).2 = .fatal ∧
     S3V.Download.requestsOf (S3V.Download.getObject io start len (n + 1) (a :: rest)).1 = 1 :=
   S3V.C02.fatal_not_retried io start len n a rest h
+
+/-! ### the serial manager (`executor_cls=NonThreadedExecutor`), Ctrl-C included
+
+`S3V.Serial`: the `except` clauses of `Task.__call__`, `NonThreadedExecutor.submit`, `BoundedExecutor.submit`
+and `SubmissionTask._main` are generated from the source; the theorems hold for every plan a manager
+builds and every outcome of every main (success, an ordinary exception, a KeyboardInterrupt). -/
+
+/-- **No false success on a serial manager**: `result()` returns normally only if no main raised —
+no request, read, write, rename or callback, by an ordinary exception or by Ctrl-C (D18). -/
+theorem serial_no_false_success (plan : List S3V.Serial.Task) (hwf : S3V.Serial.WF plan)
+    (h : (S3V.Serial.manager S3V.Serial.Tables.current plan).1.success = true) :
+    ∀ o ∈ S3V.Serial.allOuts plan, o = .ok :=
+  S3V.Serial.serial_no_false_success plan hwf h
+
+/-- **`result()` raises the first failure that occurred**, in execution order, and the call itself
+(`upload()`, `download()`, …) returns normally -/
+theorem serial_first_failure_reported (plan : List S3V.Serial.Task) (hwf : S3V.Serial.WF plan) :
+    (S3V.Serial.manager S3V.Serial.Tables.current plan).1.exc = S3V.Serial.firstFailure (S3V.Serial.allOuts plan) ∧
+    (S3V.Serial.manager S3V.Serial.Tables.current plan).1.success = (S3V.Serial.firstFailure (S3V.Serial.allOuts plan)).isNone ∧
+    (S3V.Serial.manager S3V.Serial.Tables.current plan).2 = none :=
+  ⟨(S3V.Serial.serial_outcome plan hwf).2.2.2.1, (S3V.Serial.serial_outcome plan hwf).2.2.2.2.1, (S3V.Serial.serial_outcome plan hwf).1⟩
+
+/-- the tables of the source meet what the serial theorems need (the obligation that breaks when an
+`except` clause of one of the four layers changes its behaviour) -/
+theorem serial_tables_sound : S3V.Serial.Sound S3V.Serial.Tables.current := S3V.Serial.current_sound
 
 end S3V.C03
